@@ -73,6 +73,13 @@ Theorem C18_writer_rejects_wrap : forall pfx fu ef lay rg col c,
 Proof. exact write_file_chk_rejects. Qed.
 Print Assumptions C18_writer_rejects_wrap.
 
+(** The acceptance test of the model is the check inside the page loop of
+    writeDataPage ([write_data_pages_chk] returns an error exactly then). *)
+Theorem C18_acceptance_is_the_page_loop : forall pfx fu rgo colo c,
+  chunk_accepted c = true <-> write_data_pages_chk pfx fu rgo colo 0 (c_pages c) <> None.
+Proof. intros. exact (pages_accepted_chk pfx fu rgo colo 0 (c_pages c)). Qed.
+Print Assumptions C18_acceptance_is_the_page_loop.
+
 Theorem C18_written_files_in_range : forall pfx fu ef lay wf,
   write_file_chk pfx fu ef lay = Some wf ->
   wf = write_file pfx fu ef lay /\ wf_layout lay /\
